@@ -523,6 +523,24 @@ func init() {
 	})
 
 	reg(&Prop{
+		ID:    "C06",
+		Title: "Execution results depend only on definitions, name and data, not on history - analysis half: each action is rewritten exactly once",
+		Harnesses: []HarnessSpec{
+			{Pkg: "template", Name: "vHarness_C06_order", Quick: []ParamRange{{"n0", 0, 2}}, Thorough: []ParamRange{{"n0", 0, 4}}, Reach: []string{"text-use", "attr-use"},
+				Desc: "three calls chosen symbolically among lookupAndEscapeTemplate(a | b | h) over h = T0 {{.}}, a = <p>{{template h}}, b = <p title=\"{{template h}}\"> with the real commit rewriting the trees: afterwards the pipeline of the action in h and in the copy derived for the attribute context is the original command followed by exactly the sanitizer chain of its context"},
+		},
+		Probes:    []ProbeSpec{},
+		Functions: []string{"template.(*Template).lookupAndEscapeTemplate, escapeTemplate, (*escaper).escapeTree (derived templates, parse.Tree.Copy), computeOutCtx, escapeAction, commit, ensurePipelineContains, newIdentCmd", "template.sanitizerForContext (reference chain for the action's context)", "text/template New / AddParseTree / Lookup (stdlib SSA)"},
+		Bounds: map[string]string{
+			"quick":    "all orders of 3 calls over {a, b, h}; T0 0..2 symbolic ASCII bytes that stay inside the attribute value",
+			"thorough": "T0 0..4",
+		},
+		Outside: []string{"the bytes written by Execute (text/template's executor is not encoded): the claim is about the rewritten pipelines, from which the written bytes follow only by argument",
+			"sets other than one helper shared by a text-context and an attribute-context caller; URL, script and style contexts for the second use; histories longer than 3 calls; repeated Execute calls with data"},
+		Intrinsics: []string{"(*text/template.Template).Funcs as a no-op", "stateful sync.Mutex"},
+	})
+
+	reg(&Prop{
 		ID:    "C08",
 		Title: "Template API totality, reduced to the byte-level kernels: no panic, bounded loops",
 		Harnesses: []HarnessSpec{
